@@ -430,6 +430,8 @@ def str_method(I, self, meth, args, kwargs, fr, node):
         lenient = errors is not None
         lit = z3.simplify(s.t)
         plain_ascii = z3.is_string_value(lit) and all(ord(c) < 128 for c in lit.as_string()) and '\\u{' not in lit.as_string()
+        if not plain_ascii and cname in ('ascii', 'utf-8', 'utf8', 'latin-1', 'latin1') and S.ascii_only(s.t) is True:
+            plain_ascii = True          # e.g. '.{%d}' % n: literal pieces and the decimal rendering of an integer
         if plain_ascii and cname in ('ascii', 'utf-8', 'utf8', 'latin-1', 'latin1'):
             return VStr(s.t, out_kind)          # a literal of ASCII characters: the same code units in every such codec
         if not lenient and not (cname in ('utf-8', 'utf8') and meth == 'encode'):
